@@ -40,7 +40,7 @@ import (
 
 func init() {
 	evid.Register(&evid.Check{ID: "C19", Level: "model_checking", Run: run,
-		QuickBudget: 240 * time.Second, ThoroughBudget: 14 * time.Minute})
+		QuickBudget: 300 * time.Second, ThoroughBudget: 14 * time.Minute})
 }
 
 // ---------------------------------------------------------------------------------------------
